@@ -113,8 +113,9 @@ theorem quarter_code (truth : Term → Bool) :
       Out.ret [] (if truth (Term.app ".any" [Term.app "np.isnan" [y]]) then y else Term.app ".astype" [y, Term.sym "int"]) := rfl
 
 /-- **from_string as written**: `strptime(x, format)` at exactly the non-blank positions, None elsewhere, converted to
-    datetimes; the result is narrowed to DATES only when there is at least one value and EVERY value has hour, minute
-    and second equal to 0 (three separate tests on the extracted components — not a test on the tick count). -/
+    datetimes; the result is narrowed to DATES only when there is at least one value and EVERY value has hour, minute,
+    second AND microsecond equal to 0 (four separate tests on the extracted components — not a test on the tick count; the
+    microsecond test is fix e3e8147: 00:00:00.5 used to lose its half second). -/
 theorem from_string_code (truth : Term → Bool) :
     dt_from_string truth =
       if truth (Term.app "util.is_scalar" [Term.sym "x"]) then
@@ -127,7 +128,7 @@ theorem from_string_code (truth : Term → Bool) :
         let out := Term.app ".as_datetime" [out0]
         let vals := Term.app "getitem" [out, Term.app "~" [na]]
         let zero (f : String) := truth (Term.app ".all" [Term.app "Eq" [Term.app f [vals], Term.int 0]])
-        let result := if truth (Term.app "Gt" [Term.app "len" [vals], Term.int 0]) && zero "hour" && zero "minute" && zero "second"
+        let result := if truth (Term.app "Gt" [Term.app "len" [vals], Term.int 0]) && zero "hour" && zero "minute" && zero "second" && zero "microsecond"
                       then Term.app ".as_date" [out] else out
         if truth (Term.app ".all" [na]) then Out.ret checks result
         else Out.ret (checks ++ [Term.app "store" [Term.app "getitem" [out0, Term.app "~" [na]],
